@@ -30,6 +30,7 @@ sys.path.insert(0, os.path.dirname(os.path.abspath(__file__)))
 from common import *
 a = parse_args()
 from hz import *
+import itertools
 import hz as _hz
 _hz.DECOY[0] = False      # this harness snapshots cache / object state around calls: the harness's own decoy reads would show in it
 from coqeval import coq_eval, parse_value, zlit, CoqEvalError
@@ -725,8 +726,59 @@ def check_model():
     pending.clear()
 
 
+def alias_sequences():
+    """a file in which several header words share stored arrays (SourceX = CDP_X, SourceY = CDP_Y in every trace, as in many real
+    SEG-Y files): every ordered sequence of three whole-field reads, followed by two regenerated headers, on ONE reader and on
+    ONE emulator, equals what fresh readers answer (oracle only; the cache model does not describe this file)"""
+    import seismic_zfp as _sz
+    g = random.Random(a.seed * 13 + 5)
+    shape = (5, 6, 9)
+    sgy = os.path.join(d, 'alias.sgy'); p = os.path.join(d, 'alias.sgz')
+    TFs = segyio.TraceField
+    mk_segy(sgy, rnd_cube(g, shape), 10 + 2 * np.arange(shape[0]), 100 + 3 * np.arange(shape[1]),
+            hdr=lambda t, i, x: {TFs.SourceX: 1000 + 7 * i + x, TFs.SourceY: 5000 + 3 * i - 11 * x, TFs.GroupX: 1000 + 7 * i + x})
+    write_segy_sgz(sgy, p, bpv=8)
+    os.remove(sgy)
+    fields = [181, 73, 185, 77, 189, 193, 81]
+    fresh = {}
+    for fld in fields:
+        with SgzReader(p) as r:
+            fresh[fld] = np.asarray(r.get_tracefield_values(fld)).copy()
+    with SgzReader(p) as r:
+        n_arr, hd_ref = r.n_header_arrays, {t: {int(k): int(v) for k, v in r.gen_trace_header(t, load_all_headers=True).items()} for t in (0, 7, 29)}
+    R.notes.append(f'alias file: {n_arr} stored arrays behind {len(fields)} varying header words')
+    seqs = list(itertools.permutations(fields, 3))
+    g.shuffle(seqs)
+    for seq in seqs[:(60 if quick else 210)]:
+        inp = {'file': 'alias', 'history': [f'get_tracefield_values({f_})' for f_ in seq] + ['gen_trace_header(7, load_all_headers=True)', 'gen_trace_header(29)']}
+        R.case(('alias', seq), nontrivial=True)
+        R.count('alias sequences')
+        for how in ('reader', 'emulator'):
+            try:
+                if how == 'reader':
+                    with SgzReader(p) as r:
+                        got = [np.asarray(r.get_tracefield_values(f_)) for f_ in seq]
+                        h7 = {int(k): int(v) for k, v in r.gen_trace_header(7, load_all_headers=True).items()}
+                        h29 = {int(k): int(v) for k, v in r.gen_trace_header(29).items()}
+                else:
+                    with _sz.open(p) as e:
+                        got = [np.asarray(e.attributes(f_)[:]).reshape(shape[:2]) for f_ in seq]
+                        h7 = {int(k): int(v) for k, v in e.header[7].items()}
+                        h29 = {int(k): int(v) for k, v in e.header[29].items()}
+                for f_, v in zip(seq, got):
+                    if not np.array_equal(v, fresh[f_]):
+                        R.violation('oracle', dict(inp, through=how), f'field {f_} read after {list(seq[:seq.index(f_)])} differs from a fresh reader: {v.reshape(-1)[:4]} vs {fresh[f_].reshape(-1)[:4]}')
+                        break
+                if h7 != hd_ref[7] or h29 != hd_ref[29]:
+                    R.violation('oracle', dict(inp, through=how), 'a regenerated header after the field reads differs from a fresh reader')
+            except Exception as ex:
+                R.violation('oracle', dict(inp, through=how), f'the sequence raised {type(ex).__name__}: {ex}')
+
+
 try:
     files = make_files()
+    if not a.replay:
+        alias_sequences()
     if a.replay:
         rp = json.load(open(a.replay))
         inp = rp['input']
